@@ -64,9 +64,9 @@ def configs(rng, quick):
             out.append({"system": "isobaric", "natoms": n, "T": T, "P": 2.585e-5, "max_value": 0.3, "steps": steps, "burn": steps // 10, "seed": rng.randint(0, 2 ** 31)})
     for s_ in range(S):
         steps = 60000 * (1 if quick else 3)
-        out.append({"system": "isobaric", "natoms": 2, "T": 200.0, "T_switch": 400.0, "P": 2.585e-5, "P_switch": 4.0e-5, "variant": "reheated", "max_value": 0.3, "steps": steps, "burn": steps // 5, "seed": rng.randint(0, 2 ** 31)})
+        out.append({"system": "isobaric", "natoms": 2, "T": 200.0, "T_switch": 400.0, "P": 2.585e-5, "P_switch": 4.0e-5, "variant": "reheated", "left_handed": True, "max_value": 0.3, "steps": steps, "burn": steps // 5, "seed": rng.randint(0, 2 ** 31)})
         steps = 40000 * (1 if quick else 4)
-        out.append({"system": "gc", "T": 300.0, "T_switch": 600.0, "a": 3.0, "L": 10.0, "species": "atom", "variant": "reheated", "steps": steps, "burn": steps // 5, "thin": 20, "seed": rng.randint(0, 2 ** 31)})
+        out.append({"system": "gc", "T": 300.0, "T_switch": 600.0, "a": 3.0, "L": 10.0, "species": "atom", "variant": "reheated", "acc_frac": 0.5, "steps": steps, "burn": steps // 5, "thin": 20, "seed": rng.randint(0, 2 ** 31)})
     for sp, a in ([("atom", 3.0), ("molecule", 2.0)] if quick else [("atom", 3.0), ("atom", 6.0), ("molecule", 2.0), ("molecule", 4.0)]):
         for s in range(S):
             steps = 40000 * (1 if quick else 4)
@@ -80,7 +80,9 @@ def judge(c, r, stage=1):
     tests = []
     o = r["obs"]
     z = (o["mean"] - r["expected"]) / max(o["se"], 1e-300)
-    tests.append((f"{c['system']}:mean" + (":" + c["variant"] if c.get("variant") else ""), z, ZT, abs(z) > ZT))
+    if not (math.isfinite(o["mean"]) and math.isfinite(o["se"])):
+        z = 1e300        # a chain whose observable ran away to inf / nan has no mean: that is a failure, not an undecided statistic
+    tests.append((f"{c['system']}:mean" + (":" + c["variant"] if c.get("variant") else ""), z, ZT, not abs(z) <= ZT))
     if c["system"] == "dipole":
         s, n = ks_uniform([(p + math.pi) / (2 * math.pi) for p in r["phi"]])
         tests.append(("dipole:azimuth-uniform", s, KT, s > KT))
@@ -88,7 +90,7 @@ def judge(c, r, stage=1):
     if c["system"] == "gc":
         v = r["var"]
         zv = (v["mean"] - c["a"]) / max(v["se"], 1e-300)
-        tests.append(("gc:variance", zv, ZT, abs(zv) > ZT))
+        tests.append(("gc:variance", zv, ZT, not abs(zv) <= ZT))
         chi, dof = poisson_chi2(r["hist_thinned"], c["a"])
         # chi2 with dof d: mean d, sd sqrt(2d); thinned samples are still somewhat correlated -> generous threshold
         zc = (chi - dof) / math.sqrt(2 * dof)
